@@ -193,9 +193,24 @@ func cloneNodes(ns []attrNode) []attrNode {
 
 const recLoggerName = "lg"
 
+// registered levels whose titles are free text (a quote, an equals sign, a control byte, a line break)
+const (
+	recLvQuote = slog.Level(91)
+	recLvCtl   = slog.Level(92)
+)
+
+var recSeverities = []slog.Level{slog.ErrorLevel, slog.WarnLevel, slog.DebugLevel, slog.TraceLevel, slog.OKLevel, slog.FailLevel, slog.PanicLevel, slog.FatalLevel,
+	slog.Level(77), recLvQuote, recLvCtl}
+
+func recRegisterLevels() {
+	_ = slog.RegisterLevel(recLvQuote, `AUDIT" admin="true`, slog.RegWithTreatedAsLevel(slog.InfoLevel))
+	_ = slog.RegisterLevel(recLvCtl, "bell\x07 and\nbreak", slog.RegWithTreatedAsLevel(slog.InfoLevel))
+}
+
 // emitRecord issues the call described by rc on a fresh logger that writes to
 // one recording writer and returns the Write payloads.
 func emitRecord(rc recCase) (payloads []string, pan string) {
+	recRegisterLevels()
 	rec := &recorder{}
 	var w io.Writer = &plainW{"w", rec}
 	if rc.Prior {
@@ -284,6 +299,11 @@ func emitRecord(rc recCase) (payloads []string, pan string) {
 				pl.SetColorMode(false)
 			default:
 				pl.SetColorMode(true)
+			}
+			if i == 1 {
+				// one of the earlier loggers was set to Debug (that switches the process-wide debug mode on; it is not
+				// "under go test or a debugger")
+				pl.SetLevel(slog.DebugLevel)
 			}
 			pargs := make([]any, 0, len(rc.Attrs)+1)
 			if i%2 == 1 {
